@@ -640,7 +640,8 @@ impl ArrayLike for PickObjectKeyValues {
 		Ok(Some(
 			KeyValue::into_untyped(KeyValue {
 				key: key.clone(),
-				value: Thunk::evaluated(self.obj.get_or_bail(key.clone())?),
+				// The element is `{key, value}`; reading `.key` must not evaluate the field.
+				value: self.obj.get_lazy_or_bail(key.clone()),
 			})
 			.expect("convertible"),
 		))
